@@ -7,7 +7,7 @@
    the complete enumeration trees_upto N (kernel-evaluated). *)
 From Coq Require Import List Arith ZArith.
 From PTN Require Import Tree.RTree Tree.Nav Tree.UpdatePath Tree.CachePath Tree.Enum Tree.EnumProofs
-     Sched.TDVP Sched.TDVPProofs Sched.TDVPFresh Sched.TDVPBounded Sched.TDVPUniversal.
+     Sched.TDVP Sched.TDVPProofs Sched.TDVPFresh Sched.TDVPBounded Sched.TDVPUniversal Sched.TDVPFreshU.
 Import ListNotations.
 
 (* ---- the three traces are defined on every tree with >= 2 nodes ---------------------- *)
@@ -123,6 +123,16 @@ Theorem C05_cache_fresh_bounded_9 : forall t, In t (trees_upto 9) -> 2 <= size t
   (exists tr, trace2s t = Some tr /\ sched_ok t tr).
 Proof. exact cache_fresh_bounded_9. Qed.
 Print Assumptions C05_cache_fresh_bounded_9.
+
+(* ... and the UNIVERSAL statement (every tree with unique identifiers; Sched/TDVPFreshU.v): the
+   invariant is "no link tensor pending and every block pointing towards the centre is
+   stamped with the current versions of everything behind it" *)
+Theorem C05_cache_fresh : forall t, NoDup (ids t) -> 2 <= size t ->
+  (exists tr, trace1 t = Some tr /\ sched_ok t tr) /\
+  (exists tr, trace2 t = Some tr /\ sched_ok t tr) /\
+  (exists tr, trace2s t = Some tr /\ sched_ok t tr).
+Proof. exact cache_fresh_universal. Qed.
+Print Assumptions C05_cache_fresh.
 
 (* what a successful run means: every event finds, in the state it is executed in, the centre
    on the updated object and every environment block it reads stamped with the current
@@ -266,6 +276,23 @@ Theorem C05_link_ok_sound : forall woff aoff ket op a b l,
 Proof. exact link_ok_sound. Qed.
 Print Assumptions C05_link_ok_sound.
 
+(* the link clause, universal: wf_link = the state holds the link node l (not the root, one child, two legs, no open leg)
+   between a and b, the operator does not; ta / tb = what lies behind a / b; independent neighbour orders everywhere *)
+Theorem C05_heff_link_diagram : forall woff aoff ket op a b l ta tb,
+  wf_link woff ket op a b l ta tb ->
+  exists g, heff_link woff aoff ket op a b l = Some g /\ diagram_is g (link_expected woff aoff ket op a b l ta tb).
+Proof. exact heff_link_correct. Qed.
+Print Assumptions C05_heff_link_diagram.
+
+Theorem C05_heff_link_checked : forall woff aoff ket op a b l,
+  wf_linkb woff ket op a b l = true ->
+  exists ta tb g,
+    tree_from (S (length (nodes ket))) ket (Some l) a = Some ta /\
+    tree_from (S (length (nodes ket))) ket (Some l) b = Some tb /\
+    heff_link woff aoff ket op a b l = Some g /\ diagram_is g (link_expected woff aoff ket op a b l ta tb).
+Proof. exact wf_linkb_correct. Qed.
+Print Assumptions C05_heff_link_checked.
+
 (* non-vacuity: a 4-node tree, the operator with another child order at the root; every node as target *)
 Definition C05_w_kops := [AddRoot 0 [2;3;2]; AddChild 1 [2;2] 0 0 0; AddChild 2 [3;2;2] 0 0 1; AddChild 3 [2;2] 0 2 1].
 Definition C05_w_oops := [AddRoot 0 [4;5;2;2]; AddChild 2 [4;6;2;2] 0 0 0; AddChild 1 [5;2;2] 0 0 1; AddChild 3 [6;2;2] 0 2 1].
@@ -276,3 +303,13 @@ Example C05_heff_example :
   option_map gaxes (heff_site 2000 200 ket op 2) = Some [2001; 2006; 1006; 1; 6; 1007].
 Proof. vm_compute. split; reflexivity. Qed.
 Print Assumptions C05_heff_example.
+
+(* the same state after a QR split of node 2 towards its parent 0: link node 9 between them (no open leg) *)
+Definition C05_w_kops_link := [AddRoot 0 [2;3;2]; AddChild 1 [2;2] 0 0 0; AddChild 9 [3;3] 0 0 1; AddChild 2 [3;2;2] 0 9 1; AddChild 3 [2;2] 0 2 1].
+Example C05_heff_link_example :
+  let ket := fst (run empty_store C05_w_kops_link) in
+  let op := fst (run (store_at 1000 100) C05_w_oops) in
+  andb (wf_linkb 2000 ket op 2 0 9) (link_ok 2000 200 ket op 2 0 9) = true /\
+  option_map gaxes (heff_link 2000 200 ket op 2 0 9) = Some [2001; 2006; 1; 6].
+Proof. vm_compute. split; reflexivity. Qed.
+Print Assumptions C05_heff_link_example.
